@@ -21,6 +21,7 @@ type c01Op struct {
 	Src  string `json:"src,omitempty"`
 	On   bool   `json:"on,omitempty"`
 	Mode int    `json:"mode,omitempty"`
+	CV   int    `json:"ctx_variant,omitempty"` // which variant of the program's context this render uses
 }
 
 type c01Sc struct {
@@ -80,7 +81,7 @@ func (propC01) Gen(seed uint64, ex map[string]bool) interface{} {
 			sc.Ops = append(sc.Ops, c01Op{K: "reg", E: e, P: p})
 			reg[[2]int{e, p}] = true
 		case c < 12:
-			op := c01Op{K: pick(r, []string{"render", "render", "render", "renderto"}), E: e, P: p}
+			op := c01Op{K: pick(r, []string{"render", "render", "render", "renderto"}), E: e, P: p, CV: pick(r, []int{0, 0, 1, 2, 3})}
 			if r.P(25) {
 				// render some other template of the program directly (a base layout, a partial, the macro library)
 				ts := sc.Progs[p].Templates
@@ -220,7 +221,7 @@ func (propC01) Run(scI interface{}) *Outcome {
 			if op.Name != "" {
 				prMain = op.Name
 			}
-			ctx := BuildCtx(pr.Ctx, 0)
+			ctx := BuildCtx(pr.Ctx.Variant(op.CV), 0)
 			sp := newSpies()
 			ce.hub.per[0] = sp
 			reuseBefore = w.Stat[simrt.StPoolReuse]
@@ -240,7 +241,7 @@ func (propC01) Run(scI interface{}) *Outcome {
 			var want Obs
 			withPristine(w, func() {
 				pe, hub := ce.pristine()
-				pctx := BuildCtx(pr.Ctx, 0)
+				pctx := BuildCtx(pr.Ctx.Variant(op.CV), 0)
 				want = observe(hub.per[0], func() (string, error) { return pe.Render(prMain, pctx) })
 			})
 			o.Probes["renders_compared"]++
@@ -260,7 +261,7 @@ func (propC01) Run(scI interface{}) *Outcome {
 					all += src
 				}
 				if !reUsesMaps.MatchString(all) {
-					fresh, ok := runOneshot(&oneshotCase{Templates: ce.cur, Debug: ce.debug, Main: prMain, Ctx: pr.Ctx})
+					fresh, ok := runOneshot(&oneshotCase{Templates: ce.cur, Debug: ce.debug, Main: prMain, Ctx: pr.Ctx.Variant(op.CV)})
 					if !ok {
 						o.Probes["o3_could_not_run"]++
 					} else {
